@@ -105,4 +105,49 @@ theorem guard_bound_cos (L : ℝ) : |(cs (1e-12) L).c - 1| ≤ 1e-12 * L ^ 2 / 2
   rw [abs_le]
   constructor <;> nlinarith [hsq]
 
+/-- the focusing functions of a **switched-off Bmad-X quadrupole** (`k1 = 0`, the code's regularisation `eps > 0` under
+the square root): the step's transverse matrix is the drift's `(1, L; 0, 1)` up to `eps·L²/2` and `eps·|L|³/5`
+(`√eps·|L| ≤ 1`, i.e. `|L| ≤ 6.7·10⁷ m` for the code's `eps = 2.2e-16`); the focusing entry vanishes exactly -/
+theorem bmadx_quad_off_bound (L eps : ℝ) (he : 0 < eps) (hx : |√eps * L| ≤ 1) :
+    |(quadCoef (0:ℝ) L 1 eps).a11 - 1| ≤ eps * L ^ 2 / 2 ∧ |(quadCoef (0:ℝ) L 1 eps).a12 - L| ≤ eps * |L| ^ 3 / 5 ∧
+    (quadCoef (0:ℝ) L 1 eps).a21 = 0 ∧ (quadCoef (0:ℝ) L 1 eps).a22 = (quadCoef (0:ℝ) L 1 eps).a11 := by
+  have hs : 0 < √eps := Real.sqrt_pos.mpr he
+  have hsq : √eps ^ 2 = eps := Real.sq_sqrt he.le
+  have h1 : Scalar.leb (0:ℝ) (0.0:ℝ) = true := by rw [Scalar.real_leb]; norm_num
+  have h2 : Scalar.ltb (0.0:ℝ) (0:ℝ) = false := by rw [Scalar.real_ltb_false]; norm_num
+  have ha11 : (quadCoef (0:ℝ) L 1 eps).a11 = Real.cos (√eps * L) := by
+    simp [quadCoef, mulMask, h1, h2]; norm_num
+  have ha12 : (quadCoef (0:ℝ) L 1 eps).a12 = Real.sin (√eps * L) / √eps := by
+    simp [quadCoef, mulMask, h1, h2]; norm_num
+  refine ⟨?_, ?_, by simp [quadCoef], rfl⟩
+  · rw [ha11]
+    have c1 := Real.cos_le_one (√eps * L)
+    have c2 := Real.one_sub_sq_div_two_le_cos (x := √eps * L)
+    have e : (√eps * L) ^ 2 = eps * L ^ 2 := by rw [mul_pow, hsq]
+    rw [abs_le]
+    constructor <;> nlinarith [e]
+  · rw [ha12]
+    have sb := Real.sin_bound hx
+    set x := √eps * L with hxdef
+    have hx0 : 0 ≤ |x| := abs_nonneg x
+    have hx3 : |x| ^ 5 ≤ |x| ^ 3 := by
+      have : |x| ^ 5 = |x| ^ 3 * |x| ^ 2 := by ring
+      rw [this]
+      have h2 : |x| ^ 2 ≤ 1 := by nlinarith
+      have h3 : 0 ≤ |x| ^ 3 := by positivity
+      nlinarith
+    have hsx : |Real.sin x - x| ≤ |x| ^ 3 / 5 := by
+      have t : Real.sin x - x = (Real.sin x - (x - x ^ 3 / 6)) - x ^ 3 / 6 := by ring
+      rw [t]
+      have a1 := abs_sub (Real.sin x - (x - x ^ 3 / 6)) (x ^ 3 / 6)
+      have a2 : |x ^ 3 / 6| = |x| ^ 3 / 6 := by rw [abs_div, abs_pow]; norm_num
+      have h3 : 0 ≤ |x| ^ 3 := by positivity
+      linarith
+    have hd : Real.sin x / √eps - L = (Real.sin x - x) / √eps := by
+      rw [hxdef]; field_simp
+    rw [hd, abs_div, abs_of_pos hs, div_le_iff₀ hs]
+    have hxa : |x| = √eps * |L| := by rw [hxdef, abs_mul, abs_of_pos hs]
+    calc |Real.sin x - x| ≤ |x| ^ 3 / 5 := hsx
+      _ = eps * |L| ^ 3 / 5 * √eps := by rw [hxa, mul_pow]; rw [show √eps ^ 3 = √eps ^ 2 * √eps by ring, hsq]; ring
+
 end C09
